@@ -585,3 +585,81 @@ pub fn arr_iter_position<T: Copy, const N: usize, P: FnMut(T) -> bool>(it: &mut 
     }
     None
 }
+
+/// stands in for `core::slice::Windows<'a, T>`
+pub struct WindowsShim<'a, T> {
+    s: &'a [T],
+    n: usize,
+}
+
+/// `core::slice::<impl [T]>::windows`
+pub fn slice_windows<'a, T>(s: &'a [T], n: usize) -> WindowsShim<'a, T> {
+    assert!(n != 0, "window size must be non-zero");
+    WindowsShim { s, n }
+}
+
+/// `<core::slice::Windows<'a, T> as Iterator>::next`
+pub fn windows_next<'a, T>(it: &mut WindowsShim<'a, T>) -> Option<&'a [T]> {
+    if it.n > it.s.len() {
+        None
+    } else {
+        let r = it.s.split_at(it.n).0;
+        it.s = it.s.split_at(1).1;
+        Some(r)
+    }
+}
+
+/// stands in for `core::slice::Chunks<'a, T>`
+pub struct ChunksShim<'a, T> {
+    s: &'a [T],
+    n: usize,
+}
+
+/// `core::slice::<impl [T]>::chunks`
+pub fn slice_chunks<'a, T>(s: &'a [T], n: usize) -> ChunksShim<'a, T> {
+    assert!(n != 0, "chunk size must be non-zero");
+    ChunksShim { s, n }
+}
+
+/// `<core::slice::Chunks<'a, T> as Iterator>::next`
+pub fn chunks_next<'a, T>(it: &mut ChunksShim<'a, T>) -> Option<&'a [T]> {
+    if it.s.is_empty() {
+        None
+    } else {
+        let k = if it.n < it.s.len() { it.n } else { it.s.len() };
+        let (r, rest) = it.s.split_at(k);
+        it.s = rest;
+        Some(r)
+    }
+}
+
+/// stands in for `core::slice::ChunksExact<'a, T>`
+pub struct ChunksExactShim<'a, T> {
+    s: &'a [T],
+    rem: &'a [T],
+    n: usize,
+}
+
+/// `core::slice::<impl [T]>::chunks_exact`
+pub fn slice_chunks_exact<'a, T>(s: &'a [T], n: usize) -> ChunksExactShim<'a, T> {
+    assert!(n != 0, "chunk size must be non-zero");
+    let full = s.len() - s.len() % n;
+    let (body, rem) = s.split_at(full);
+    ChunksExactShim { s: body, rem, n }
+}
+
+/// `<core::slice::ChunksExact<'a, T> as Iterator>::next`
+pub fn chunks_exact_next<'a, T>(it: &mut ChunksExactShim<'a, T>) -> Option<&'a [T]> {
+    if it.s.len() < it.n {
+        None
+    } else {
+        let (r, rest) = it.s.split_at(it.n);
+        it.s = rest;
+        Some(r)
+    }
+}
+
+/// `core::slice::ChunksExact::<'a, T>::remainder`
+pub fn chunks_exact_remainder<'a, T>(it: &ChunksExactShim<'a, T>) -> &'a [T] {
+    it.rem
+}
